@@ -700,6 +700,25 @@ func (s *scope) createInstance(descriptor *Descriptor) (any, error) {
 		}
 	}
 
+	// A constructor may return one object under several of its results (a
+	// concrete type next to an interface it implements): such an object is
+	// tracked for disposal once, its other identities only refer to it.
+	var tracked []any
+	storeOutput := func(output *Descriptor, key instanceKey, value any) error {
+		if _, ok := value.(Disposable); ok {
+			for _, earlier := range tracked {
+				if sameObject(earlier, value) {
+					s.cacheInstanceAt(output.Lifetime, key, value)
+					return nil
+				}
+			}
+		}
+
+		// Also when the scope refuses it: it has then been disposed already
+		tracked = append(tracked, value)
+		return s.setInstance(output, key, value)
+	}
+
 	// Handle result objects (Out structs)
 	if info.IsResultObject {
 		processor := reflection.NewResultObjectProcessor(s.rootProvider.analyzer)
@@ -745,7 +764,7 @@ func (s *scope) createInstance(descriptor *Descriptor) (any, error) {
 					Group: regDescriptor.Group,
 				}
 
-				if err := s.setInstance(regDescriptor, key, value); err != nil {
+				if err := storeOutput(regDescriptor, key, value); err != nil {
 					setErr = err
 				}
 
@@ -770,7 +789,7 @@ func (s *scope) createInstance(descriptor *Descriptor) (any, error) {
 				Group: reg.Group,
 			}
 
-			if err := s.setInstance(regDescriptor, key, value); err != nil {
+			if err := storeOutput(regDescriptor, key, value); err != nil {
 				setErr = err
 			}
 		}
@@ -822,7 +841,7 @@ func (s *scope) createInstance(descriptor *Descriptor) (any, error) {
 				Group: serviceDescriptor.Group,
 			}
 
-			if err := s.setInstance(serviceDescriptor, key, value); err != nil {
+			if err := storeOutput(serviceDescriptor, key, value); err != nil {
 				setErr = err
 			}
 		}
@@ -872,7 +891,12 @@ func (s *scope) cacheInstance(descriptor *Descriptor, instance any) {
 		Group: descriptor.Group,
 	}
 
-	switch descriptor.Lifetime {
+	s.cacheInstanceAt(descriptor.Lifetime, key, instance)
+}
+
+// cacheInstanceAt is cacheInstance for an explicit cache key.
+func (s *scope) cacheInstanceAt(lifetime Lifetime, key instanceKey, instance any) {
+	switch lifetime {
 	case Singleton:
 		s.rootProvider.cacheSingleton(key, instance)
 	case Scoped:
@@ -882,6 +906,17 @@ func (s *scope) cacheInstance(descriptor *Descriptor, instance any) {
 		}
 		s.instancesMu.Unlock()
 	}
+}
+
+// sameObject reports whether a and b are one and the same heap object: equal
+// non-nil pointers of the same type.
+func sameObject(a, b any) bool {
+	va, vb := reflect.ValueOf(a), reflect.ValueOf(b)
+	if va.Kind() != reflect.Pointer || vb.Kind() != reflect.Pointer {
+		return false
+	}
+
+	return va.Type() == vb.Type() && !va.IsNil() && va.Pointer() == vb.Pointer()
 }
 
 // FromContext retrieves a Scope from the context.
